@@ -424,7 +424,10 @@ pub mod value {
 
     impl fmt::Debug for IDLArgs {
         fn fmt(&self, f: &mut fmt::Formatter<'_>) -> fmt::Result {
-            if self.args.len() == 1 {
+            if self.args.is_empty() {
+                // debug_tuple("") with no field prints nothing at all
+                write!(f, "()")
+            } else if self.args.len() == 1 {
                 write!(f, "({:?})", self.args[0])
             } else {
                 let mut tup = f.debug_tuple("");
